@@ -138,7 +138,7 @@ type genDyn struct {
 type genPiece struct {
 	konst string
 	dyn   *genDyn
-	alts  []string // one of these constants (a value looked up in a constant table)
+	alts  []string  // one of these constants (a value looked up in a constant table)
 	group *genGroup // zero or more elements (each one of the alternatives elems) separated by sep
 	// emit: the text an emitting function of the generator writes, used as a string (`goType(t)` that runs the type
 	// writer on a scratch buffer and returns its contents): the function is walked at this point of the text
@@ -184,7 +184,7 @@ type genWalker struct {
 	memo    map[string]lexState
 	// sliceElems: the element expressions appended to a local []string (for strings.Join of it)
 	sliceElems map[types.Object][]ast.Expr
-	curFn   string
+	curFn      string
 
 	Splices []*genSplice
 	Frags   []genFrag
